@@ -69,6 +69,10 @@ Readings (the weaker one where the statement leaves a choice):
 * ParameterErrorTolerance (the solver's own tolerance) is part of the state: not set, finer or coarser (x10, x100)
   than the steady-state tolerance; the acceptance tolerance is the steady-state one in every case.  With a coarser
   step tolerance the classes with large drift come in two flavours (`loose`: within the coarser tolerance).
+* Search horizons: 1 and 2 computed periods are part of the model (`horizon`), next to 5..200.  With T = 1 the
+  previous value of a series is its initial condition (the lag of a generated variable gets an initial condition
+  one step further back on the same recurrence).  T = 0 is not generated: there is no computed period and no pair
+  of values; the unchanged code answers IndexError there (reported, not judged).
 * "otherwise the search raises a no-equilibrium or value error" is demanded of well-formed systems; a system
   that names an undefined variable (the repository's own test expects NameError) is replayed but not judged
   on this clause.
@@ -239,7 +243,7 @@ def families(name, p, q, T, allow_trend):
         return {'rhs': lin(1.0, d), 'x0': q - T * d}
     fams.append(('drift', drift))
 
-    a_st = max(0.5, round(10 ** (-6.0 / (T - 1)), 3))
+    a_st = max(0.5, round(10 ** (-6.0 / max(T - 1, 1)), 3))
 
     def stable(exo):
         def b():
@@ -261,7 +265,7 @@ def families(name, p, q, T, allow_trend):
             x0 = fp + (p - fp) / (-a) ** (T - 1)
             return {'rhs': lin(-a, c), 'x0': x0}
         return b
-    fams.append(('osc_damped', osc(max(0.9, round(10 ** (-6.0 / (T - 1)), 3)))))
+    fams.append(('osc_damped', osc(max(0.9, round(10 ** (-6.0 / max(T - 1, 1)), 3)))))
     fams.append(('osc_undamped', osc(1.0)))
     if T <= 60:
         fams.append(('osc_explosive', osc(1.1)))
@@ -393,7 +397,9 @@ def realise(name, cls, T, tol, rng, allow_trend=False, max_time=5, tdep='none', 
                         'exo': [], 'series': [name], 'sim': (sp, sq, sn)}
             return {'recipe': rname + tag, 'target': [p, q], 'sim': (sp, sq, sn),
                     'endo': ['%s = %s' % (name, rhs), '%s = %s(k-1)' % (lag, name)],
-                    'init': ['%s(0) = %s' % (name, num(x0))], 'exo': exo, 'series': [name, lag]}
+                    'init': ['%s(0) = %s' % (name, num(x0))] +
+                            (['%s(0) = %s' % (lag, num(x0 - (sq - sp)))] if T == 1 else []),   # T=1: prev of the lag
+                    'exo': exo, 'series': [name, lag]}
     return None
 
 
@@ -456,7 +462,10 @@ def build_case(beh, seed, tier):
     step_kind = beh.get('steptol', 'none')
     option = sorted(''.join(nm) for nm in beh['option'])       # ParameterInitialSteadyStateExcludedVariables
     max_time = rng.choice([3, 5, 10])
-    if tier == 'quick':
+    hz = beh.get('horizon', 'many')
+    if hz in ('one', 'two'):
+        T = 1 if hz == 'one' else 2                   # very short search horizons
+    elif tier == 'quick':
         T = rng.choice(HORIZONS_QUICK)
     else:
         T = rng.choice([rng.choice(HORIZONS_QUICK), rng.randint(5, 200), rng.randint(31, 200)])
@@ -501,7 +510,10 @@ def build_case(beh, seed, tier):
             parts_of[i] = r
             gen[v] = beh['cls'][i]
             recipes.append(r['recipe'])
-            if not is_ex and kinds[i] != 'decorative' and r['recipe'] != 'exo' and rng.random() < 0.25:
+            # (with reduction off the copy is solved in the sweeps and may lag one period within the step tolerance;
+            #  after a single search period it then catches up by twice the drift: not generated for short horizons)
+            if not is_ex and kinds[i] != 'decorative' and r['recipe'] != 'exo' and rng.random() < 0.25 and \
+                    (reduction or T > 2):
                 parts.append({'endo': ['d_%s = 1.0*%s' % (v, v)], 'init': [], 'exo': []})     # decorative copy
         if ok:
             base.update(tdep=dict((v, tdeps[i]) for i, v in enumerate(names)), steptol=steptol)
@@ -521,7 +533,7 @@ CANONICAL = [('LAG_x1 - 1.0', -1000.0), ('LAG_x1 + 1.0', 1000.0), ('LAG_x1 - 1.0
 
 def canonical_cases(tier):
     """The systems named in the property's description, at fixed (T, tol); the class is computed."""
-    grid = [(20, 1e-4), (5, 1e-2), (30, 1e-6), (20, 1e-6)]
+    grid = [(20, 1e-4), (5, 1e-2), (30, 1e-6), (20, 1e-6), (1, 1e-4), (2, 1e-4), (3, 1e-3)]
     if tier != 'quick':
         grid += [(200, 1e-4), (137, 1e-3), (61, 1e-5)]
     out = []
@@ -677,6 +689,7 @@ def execute(case):
     events = [{'ev': 'Begin', 'n': len(names), 'names': [list(v) for v in names],
                'kinds': [kind_of.get(v, 'solved') for v in names],
                'tdep': [case.get('tdep', {}).get(v, 'none') for v in names],
+               'horizon': 'one' if T == 1 else ('two' if T == 2 else 'many'),
                'steptol': step_kind, 'steptoltext': '' if steptol is None else num(steptol),
                'option': [list(v) for v in case['excluded']], 'listed': idx_excl, 'wf': case['wf'],
                'T': T, 'toltext': num(tol)}]
@@ -723,6 +736,10 @@ def signature(clause, case, events):
         begin = events[0]
         if any(e['ev'] == 'Freeze' and not e.get('axis_ok', True) for e in events):
             return 'time-axis:search-not-run-along-k=-T..0:time-dependent-series-accepted-off-its-k=0-rest-point'
+        if begin.get('horizon') == 'one':
+            run1 = [e for e in events if e['ev'] == 'Run'][0]
+            if any(e['ev'] == 'Judge' and not e['excl'] and run1['cls'][e['idx'] - 1]['drift'] == 'large' for e in events):
+                return 'short-horizon:single-computed-period-accepted-without-comparison-with-the-initial-value'
         if begin.get('steptol') == 'coarser':
             run0 = [e for e in events if e['ev'] == 'Run'][0]
             if any(e['ev'] == 'Judge' and not e['excl'] and run0['cls'][e['idx'] - 1].get('loose') for e in events):
